@@ -428,6 +428,10 @@ func c01ClassOf(iv interface{}, gerr, serr error, g, s []byte) string {
 		return "C08-direct-iface-array"
 	case f.ptrNumClash:
 		return "C08-ptr-struct-first-field-ptr"
+	case f.ptrShapeDepth:
+		// before the classes of wrong output: a value of this family can make the encoder read memory
+		// that is not the value's (the properties that only need the call to return do not run it)
+		return "C08-pointer-shape-or-depth"
 	case f.ptrZeroSize:
 		return "C01-ptr-to-zero-size"
 	case f.ptrShapedMute:
@@ -446,8 +450,6 @@ func c01ClassOf(iv interface{}, gerr, serr error, g, s []byte) string {
 		return "C01-map-key-order-escaped"
 	case f.depthConf:
 		return "C15-embedded-depth"
-	case f.ptrShapeDepth:
-		return "C08-pointer-shape-or-depth"
 	}
 	return ""
 }
